@@ -3,6 +3,7 @@ C03 — format literals are interpreted exactly as std::fmt interprets them.
 Property theorems only; helper lemmas live in Dm/Lemmas.
 -/
 import Dm.Lemmas.FmtParse
+import Dm.Lemmas.FmtRoundTrip
 
 namespace Dm.Props.C03
 open Dm.Fmt
@@ -17,5 +18,117 @@ names do not advance it and `.*` advances it once more (before the value's own p
 theorem implicit_counter_is_std (n : Nat) (ps : List Piece) :
     placeholdersFrom n (formatsOf ps) = meaningFrom n ps :=
   placeholdersFrom_formatsOf n ps
+
+/-- **Round trip, partial** (placeholders without `:format_spec`; the full grammar is compared with
+`rustc_parse_format` exhaustively on short literals by the check, not proved): for every canonical
+derivation of the std grammar whose placeholders are `{}`, `{N}`, `{name}` (with optional trailing
+whitespace), of any length, derive_more's parser accepts the printed literal and reads exactly the
+derivation's formats. What is missing for the full statement: the `format_spec` productions
+(fill/align ambiguity, the `0` flag vs. width, `x?`). -/
+theorem formats_agree_nospec_partial (cc : CharClasses) (hs : Sane cc) (ps : List Piece) (hcan : Canonical ps)
+    (hwf : ∀ p ∈ ps, p.WF cc ∧ NoSpec p) :
+    formatString cc (renderAll ps) = some (formatsOf ps) := by
+  unfold formatString
+  cases ps with
+  | nil => simp [renderAll, text_nil, formatLoop, maybeFormat_nil, formatsOf]
+  | cons p rest =>
+    have hrest : ∀ q ∈ rest, q.WF cc ∧ NoSpec q := fun q hq => hwf q (by simp [hq])
+    cases p with
+    | text cs =>
+      have hcs : cs ≠ [] ∧ ∀ c ∈ cs, isBrace c = false := (hwf (Piece.text cs) (by simp)).1
+      have hnext : ∀ h t, renderAll rest = h :: t → isBrace h = true := by
+        intro h t e
+        cases rest with
+        | nil => simp [renderAll] at e
+        | cons q qs =>
+          have hled : q.isBraceLed = true := by
+            cases q with
+            | text ds => simp [Canonical] at hcan
+            | _ => rfl
+          obtain ⟨b, t', hb, hbr⟩ := render_head_brace qs q hled
+          rw [hb] at e; cases e; exact hbr
+      have hr : renderAll (Piece.text cs :: rest) = cs ++ renderAll rest := by simp [renderAll, Piece.render]
+      rw [hr, text_stops cs (renderAll rest) hcs.1 hcs.2 hnext]
+      simp only
+      rw [formatLoop_render cc hs rest _ (by omega) hcan.tail hrest]
+      simp [formatsOf]
+    | lbrace =>
+      have hled : (Piece.lbrace).isBraceLed = true := rfl
+      obtain ⟨b, t, hb, hbr⟩ := render_head_brace rest Piece.lbrace hled
+      have ht : text (renderAll (Piece.lbrace :: rest)) = none := by
+        rw [hb]; simp [text, List.takeWhile, hbr]
+      rw [ht]
+      simp only
+      rw [formatLoop_render cc hs _ _ (by omega) hcan hwf]
+    | rbrace =>
+      have hled : (Piece.rbrace).isBraceLed = true := rfl
+      obtain ⟨b, t, hb, hbr⟩ := render_head_brace rest Piece.rbrace hled
+      have ht : text (renderAll (Piece.rbrace :: rest)) = none := by
+        rw [hb]; simp [text, List.takeWhile, hbr]
+      rw [ht]
+      simp only
+      rw [formatLoop_render cc hs _ _ (by omega) hcan hwf]
+    | ph q =>
+      have hled : (Piece.ph q).isBraceLed = true := rfl
+      obtain ⟨b, t, hb, hbr⟩ := render_head_brace rest (Piece.ph q) hled
+      have ht : text (renderAll (Piece.ph q :: rest)) = none := by
+        rw [hb]; simp [text, List.takeWhile, hbr]
+      rw [ht]
+      simp only
+      rw [formatLoop_render cc hs _ _ (by omega) hcan hwf]
+
+/-- … and therefore the placeholders derive_more sees (argument, trait, modifiers) are std's reading
+of the derivation. -/
+theorem placeholders_agree_nospec_partial (cc : CharClasses) (hs : Sane cc) (ps : List Piece) (hcan : Canonical ps)
+    (hwf : ∀ p ∈ ps, p.WF cc ∧ NoSpec p) :
+    parseFmtString cc (renderAll ps) = meaning ps := by
+  unfold parseFmtString meaning
+  rw [formats_agree_nospec_partial cc hs ps hcan hwf]
+  exact placeholdersFrom_formatsOf 0 ps
+
+/-! Non-vacuity: the hypotheses are satisfiable — ASCII character classes are `Sane`, and a concrete
+derivation `a{x }{{{1}` meets the premises. -/
+def asciiCC : CharClasses := { isStart := fun c => c.isAlpha, isCont := fun c => c.isAlphanum || c == '_', isWs := fun c => c == ' ' }
+
+theorem asciiSane : Sane asciiCC := by
+  refine ⟨?_, ?_, ?_, ?_, ?_⟩
+  · intro c hc
+    simp only [isDigit, Char.isDigit, Bool.and_eq_true, decide_eq_true_eq] at hc
+    refine ⟨?_, ?_, ?_⟩
+    · simp only [asciiCC, Char.isAlpha, Char.isUpper, Char.isLower, Bool.or_eq_false_iff, Bool.and_eq_false_iff, decide_eq_false_iff_not]
+      have h1 := hc.1; have h2 := hc.2
+      constructor
+      · rintro ⟨h, _⟩; have := UInt32.le_trans h h2; revert this; decide
+      · left; intro h; have := UInt32.le_trans h h2; revert this; decide
+    · intro e; subst e; revert hc; decide
+    · simp only [asciiCC, beq_eq_false_iff_ne]; intro e; subst e; revert hc; decide
+  · intro c hc
+    have : c = ' ' := by simpa [asciiCC] using hc
+    subst this
+    decide
+  · decide
+  · decide
+  · intro c hc
+    constructor <;> (intro e; subst e; revert hc; decide)
+
+def exPieces : List Piece :=
+  [.text ['a'], .ph ⟨some (.name ['x']), none, [' ']⟩, .lbrace, .ph ⟨some (.idx ['1']), none, []⟩]
+
+example : formatString asciiCC (renderAll exPieces) = some (formatsOf exPieces) := by
+  apply formats_agree_nospec_partial asciiCC asciiSane
+  · simp [exPieces, Canonical]
+  · intro p hp
+    simp only [exPieces, List.mem_cons, List.mem_nil_iff, or_false] at hp
+    rcases hp with rfl | rfl | rfl | rfl
+    · exact ⟨⟨by simp, by intro c hc; simp at hc; subst hc; decide⟩, trivial⟩
+    · refine ⟨⟨?_, ?_, ?_⟩, rfl⟩
+      · intro a ha; cases ha; exact Or.inl ⟨by decide, by simp⟩
+      · intro s hs; cases hs
+      · intro c hc; simp at hc; subst hc; decide
+    · exact ⟨trivial, trivial⟩
+    · refine ⟨⟨?_, ?_, ?_⟩, rfl⟩
+      · intro a ha; cases ha; exact ⟨by simp, by intro d hd; simp at hd; subst hd; decide, by decide⟩
+      · intro s hs; cases hs
+      · intro c hc; simp at hc
 
 end Dm.Props.C03
